@@ -221,6 +221,11 @@ theorem isLin_sMul (b : XE → Bool) (hb : ∀ e, b e = true → isCoef e = fals
           simp [flatMulArgs_coefs cs _ hcs, flatMulArgs, isOne, isZero]
         · have := hb _ hr; simp [isCoef] at this
       | cst _ => subst hrr; simp only [isLin] at hr; have := hb _ hr; simp [isCoef] at this
+      | other t as =>
+        -- an opaque node in the base predicate is not a coefficient (in particular not a power
+        -- of constants), so it is the single non-coefficient factor
+        subst hrr; simp only [isLin] at hr; have := hb _ hr
+        simp [flatMulArgs, vecs, this]
       | add _ => simp [flatMulArgs, vecs, isCoef]
       | _ => simp [flatMulArgs, vecs, isCoef]
     · intro y hy
@@ -247,5 +252,89 @@ theorem isNode_node (o : U) (a : XE) : isNode o (o.node a) = true := by
 
 theorem isImg_node (o : U) (a : XE) : isImg o (o.node a) = true := by
   cases o <;> simp [U.node, isImg, isLin, isNode]
+
+/-! ### coefficients (numbers, Constants, powers of those) -/
+
+theorem isReg_isCoef (a : XE) (h : isReg a = true) : isCoef a = true := by
+  cases a <;> simp_all [isReg, isCoef]
+
+theorem isCoef_cases (a : XE) (h : isCoef a = true) :
+    (∃ p q, a = num p q) ∨ (∃ s, a = cst s) ∨
+      (∃ b e, a = other "Pow" [b, e] ∧ isReg b = true ∧ isReg e = true) := by
+  cases a with
+  | num p q => exact .inl ⟨p, q, rfl⟩
+  | cst s => exact .inr (.inl ⟨s, rfl⟩)
+  | other t as =>
+    simp only [isCoef, Bool.and_eq_true, beq_iff_eq] at h
+    obtain ⟨rfl, h2⟩ := h
+    match as, h2 with
+    | [b, e], h2 =>
+      simp only [isRegPair, Bool.and_eq_true] at h2
+      exact .inr (.inr ⟨b, e, rfl, h2.1, h2.2⟩)
+  | _ => simp [isCoef] at h
+
+/-- a coefficient has no inferred degree (`infere_type` returns `None` on it, it never raises) -/
+theorem infer_coef (a : XE) (h : isCoef a = true) : infer a = .ok none := by
+  cases a <;> simp_all [isCoef, infer]
+
+/-- factors after the single non-coefficient one: all coefficients, inference succeeds on them -/
+theorem inferList_coefs (as : List XE) (h : vecs as = []) :
+    ∃ ts, inferList as = .ok ts ∧
+      ((as.zip ts).filter (fun p => !isCoef p.1)).map (·.2) = [] := by
+  induction as with
+  | nil => exact ⟨[], by simp [inferList]⟩
+  | cons a as ih =>
+    have ha : isCoef a = true := by
+      cases hc : isCoef a
+      · simp [vecs, List.filter, hc] at h
+      · rfl
+    have hrest : vecs as = [] := by simpa [vecs, List.filter, ha] using h
+    obtain ⟨ts, hts, hf⟩ := ih hrest
+    refine ⟨none :: ts, ?_, ?_⟩
+    · simp [inferList, infer_coef a ha, hts, bind, Except.bind]
+    · simpa [List.filter, ha] using hf
+
+/-- degree inference on the factors of a product with exactly one non-coefficient factor `v`:
+    it fails exactly as it fails on `v`, and otherwise records the degree of `v` at `v`'s place -/
+theorem inferList_one_vec (as : List XE) (v : XE) (h : vecs as = [v]) :
+    (∀ e, infer v = .error e → inferList as = .error e) ∧
+    (∀ t, infer v = .ok t → ∃ ts, inferList as = .ok ts ∧
+      ((as.zip ts).filter (fun p => !isCoef p.1)).map (·.2) = [t]) := by
+  induction as with
+  | nil => simp [vecs] at h
+  | cons a as ih =>
+    cases hc : isCoef a
+    · -- `a` is the non-coefficient factor
+      have hav : a = v ∧ vecs as = [] := by simpa [vecs, List.filter, hc] using h
+      obtain ⟨rfl, hrest⟩ := hav
+      obtain ⟨ts, hts, hf⟩ := inferList_coefs as hrest
+      constructor
+      · intro e he; simp [inferList, he, bind, Except.bind]
+      · intro t ht
+        refine ⟨t :: ts, by simp [inferList, ht, hts, bind, Except.bind], ?_⟩
+        simpa [List.filter, hc] using hf
+    · have hrest : vecs as = [v] := by simpa [vecs, List.filter, hc] using h
+      obtain ⟨ih1, ih2⟩ := ih hrest
+      constructor
+      · intro e he; simp [inferList, infer_coef a hc, ih1 e he, bind, Except.bind]
+      · intro t ht
+        obtain ⟨ts, hts, hf⟩ := ih2 t ht
+        refine ⟨none :: ts, by simp [inferList, infer_coef a hc, hts, bind, Except.bind], ?_⟩
+        simpa [List.filter, hc] using hf
+
+theorem flatMulArgs_coef_cons (c : XE) (xs : List XE) (hc : isCoef c = true) :
+    flatMulArgs (c :: xs) = c :: flatMulArgs xs := by
+  simpa using flatMulArgs_coefs [c] xs (by simpa using hc)
+
+/-- sympy's `Mul` of a coefficient that is neither 0 nor 1 and one irreducible other factor -/
+theorem sMul_coef_pair (c x : XE) (hc : isCoef c = true) (h0 : isZero c = false)
+    (h1 : isOne c = false) (hxm : ∀ ys, x ≠ mul ys) (hx0 : isZero x = false)
+    (hx1 : isOne x = false) : sMul [c, x] = mul [c, x] := by
+  have fx : flatMulArgs [x] = [x] := by
+    cases x with
+    | mul ys => exact absurd rfl (hxm ys)
+    | _ => simp [flatMulArgs]
+  unfold sMul
+  simp [flatMulArgs_coef_cons c [x] hc, fx, List.filter, h0, h1, hx0, hx1, finishMul]
 
 end Sympde.Ext
